@@ -200,22 +200,45 @@ def pdetect(dirs, nworkers, which, tier="quick"):
         sh(["rm", "-rf", wd])
 
 
-def table():
+def table(write=False):
     base = os.path.join(HERE, "seeded")
-    rows = []
+    lines = ["| change | property | what it needs to manifest | target check (quick) | first signature | other checks that also fire |",
+             "|---|---|---|---|---|---|"]
+    nfired = ntotal = 0
     for name in sorted(os.listdir(base)):
         d = os.path.join(base, name)
         if not os.path.isfile(os.path.join(d, "meta.json")):
             continue
         m = load_meta(d)
+        t = m.get("property")
         det = m.get("detection", {}).get("checks", {})
-        fired = [p for p, r in det.items() if r.get("fired")]
-        missed = [p for p, r in det.items() if not r.get("fired")]
-        rows.append((name, m.get("property"), m.get("confirmed", {}).get("ok"), ",".join(fired) or "-", ",".join(missed) or "-", m.get("summary", "")[:90]))
-    print("| seeded change | property | confirmed | caught by | not caught by | what it changes |")
-    print("|---|---|---|---|---|---|")
-    for r in rows:
-        print("| %s | %s | %s | %s | %s | %s |" % r)
+        tr = det.get(t, {})
+        others = sorted(p for p, r in det.items() if p != t and r.get("fired"))
+        allrun = len(det) > 3
+        needs = " ".join(m.get("needs", "").split())
+        if len(needs) > 150:
+            needs = needs[:147] + "..."
+        sig = (tr.get("signatures") or ["-"])[0].replace("|", "¦")
+        status = "FIRED" if tr.get("fired") else "silent"
+        if m.get("detection_layers"):
+            dl = m["detection_layers"]
+            status += "; thorough layers: " + ", ".join("%s %s" % (k, "FIRED" if str(dl.get(k, "")).startswith("FIRED") else "silent") for k in ("miri", "asan") if k in dl)
+        ntotal += 1
+        nfired += 1 if tr.get("fired") else 0
+        lines.append("| %s | %s | %s | %s | `%s` | %s |" % (name, t, needs.replace("|", "/"), status, sig, (", ".join(others) if others else ("-" if allrun else "(not run)"))))
+    lines.append("")
+    lines.append("%d of %d changes are caught by the quick check of the property they target." % (nfired, ntotal))
+    text = "\n".join(lines)
+    if write:
+        dp = os.path.join(HERE, "DESIGN.md")
+        s = open(dp).read()
+        b0, b1 = "<!-- SEEDED-TABLE-BEGIN -->", "<!-- SEEDED-TABLE-END -->"
+        if b0 in s and b1 in s:
+            s = s[:s.index(b0) + len(b0)] + "\n" + text + "\n" + s[s.index(b1):]
+            open(dp, "w").write(s)
+            print("DESIGN.md table rewritten (%d rows)" % ntotal)
+            return
+    print(text)
 
 
 def main():
@@ -244,7 +267,7 @@ def main():
         pdetect(args, nworkers, which)
         return 0
     if cmd == "table":
-        table()
+        table(write="--write" in sys.argv[2:])
         return 0
     if cmd == "cleanup":
         sh(["git", "-C", REPO, "worktree", "remove", "--force", SCRATCH])
